@@ -246,6 +246,22 @@ CLAIMED = {
         "fixed-point unit 1e-4.",
         "TLA+ fixed-point formulas evaluated by TLC on recorded values + TLC lemma on tables",
     ),
+    "C14": (
+        "7/C14",
+        "Config.tla, Trace_Formats.tla",
+        "TLC checks the decision table of Config.tla -- documented hyper-parameter domain, documented minimum "
+        "data length, missing values, scorer too coarse for the requested segment length -- against the "
+        "order of checks in the constructors, fit and predict, and that OK implies non-empty search ranges "
+        "(a seeded interval exists, the first moving-window cut fits); every grid point TLC enumerates "
+        "(seven detectors, each hyper-parameter below / at / above its bound incl. min_segment_length = 1, "
+        "bandwidth = 1, max_interval_length = 2*min_segment_length, both CAPA scales, data length "
+        "MinLen-1..MinLen+2 and MinLen+25, NaN, p in 1..3) is constructed, fitted and predicted and must end "
+        "in the expected outcome class; every OK output is validated by TLC with C04's predicate.",
+        "Quick runs 3 of 16 slices of the grid, thorough all; min_detection_interval stays at its default "
+        "(docstring and constructor disagree about its range); 'ValueError from a too coarse scorer' is a "
+        "permitted, not a required outcome; one lattice data set per grid point.",
+        "TLA+ decision-table model checked with TLC + grid replay + TLC-validated outputs",
+    ),
 }
 
 NOT_YET = {}
